@@ -180,6 +180,9 @@ def _run_trace_shard(args):
     return idx, r.rc, done, sorted(set(fails)), r.generated, r.out[-3000:], r.wall
 
 
+all_rejections = {}     # trace index -> [(event index, clause), ...] of the last validate_traces call (modules that do not skip)
+
+
 def validate_traces(module, cfg, traces, shards=NPROC, max_events_per_shard=4000):
     """traces: list of lists of event dicts (without tid).  Returns
     {trace_index: (event_index_in_trace, clause)} for the rejected ones plus
@@ -217,6 +220,7 @@ def validate_traces(module, cfg, traces, shards=NPROC, max_events_per_shard=4000
         jobs.append((module, cfg, path, len(line_maps)))
         line_maps.append((lm, ln))
     rejected = {}
+    all_rejections.clear()
     states = 0
     with concurrent.futures.ThreadPoolExecutor(max_workers=NPROC) as ex:
         for idx, rc, done, fails, gen, tail, wall in ex.map(_run_trace_shard, jobs):
@@ -227,6 +231,7 @@ def validate_traces(module, cfg, traces, shards=NPROC, max_events_per_shard=4000
             for tid, line, clause in fails:
                 ti, k = lm[line]
                 rejected.setdefault(ti, (k, clause))
+                all_rejections.setdefault(ti, []).append((k, clause))
     for j in jobs:
         try:
             os.remove(j[2])
